@@ -137,6 +137,8 @@ type jobOut struct {
 	stats map[string]int
 	text  []string
 	died  bool
+	// skipped: the time budget ran out before the job was handed to a worker
+	skipped bool
 }
 
 func (m *Master) addStats(s map[string]int) {
@@ -284,6 +286,12 @@ func (m *Master) parallel(jobs []job) []jobOut {
 		}()
 	}
 	for i := range jobs {
+		if i%64 == 0 && m.expired() {
+			for k := i; k < len(jobs); k++ {
+				outs[k].skipped = true
+			}
+			break
+		}
 		ch <- i
 	}
 	close(ch)
@@ -362,6 +370,10 @@ func (m *Master) bfs(ui int, sc *Scenario) {
 		var next [][]int
 		var nextKeys []string
 		for i, o := range outs {
+			if o.skipped {
+				cut = true
+				continue
+			}
 			m.addStats(o.stats)
 			m.Found = append(m.Found, o.found...)
 			if k := frontierKeys[i]; k != "" && subsetHash(k)%16 == 0 {
@@ -419,6 +431,9 @@ func (m *Master) bfs(ui int, sc *Scenario) {
 			}
 		}
 		for i, o := range m.parallel(jobs) {
+			if o.skipped {
+				continue
+			}
 			m.DedupCompared++
 			if got := transSignature(o.trans); got != sigOf[keys[i]] {
 				m.DedupMismatch++
@@ -478,6 +493,10 @@ func (m *Master) enumerate(ui int, en *Enum) {
 			e = len(jobs)
 		}
 		for i, o := range m.parallel(jobs[s:e]) {
+			if o.skipped {
+				exhaustive = false
+				continue
+			}
 			m.addStats(o.stats)
 			m.Found = append(m.Found, o.found...)
 			done += jobs[s+i].to - jobs[s+i].from
